@@ -4,6 +4,7 @@ package main
 
 import (
 	"fmt"
+	"go/ast"
 	"go/token"
 	"go/types"
 	"runtime/debug"
@@ -53,6 +54,7 @@ type VerifyOpts struct {
 	Events  bool
 	Timeout time.Duration
 	Only    func(name string) bool // filter obligations by name
+	Closure int                    // >0: verify the n-th function literal of the function
 	ExpectFail func(name string) bool // obligations listed as known findings: a model of the quantifier-free part suffices
 }
 
@@ -84,6 +86,34 @@ func (w *World) VerifyFunc(fi *FuncInfo, c *Contract, opts VerifyOpts) (res *Uni
 	ex.oblCalls = true
 	sig := fi.Obj.Type().(*types.Signature)
 	ex.curFnSig = sig
+	body := fi.Decl.Body
+	var closureSig *types.Signature
+	if opts.Closure > 0 {
+		n := 0
+		var lit *ast.FuncLit
+		ast.Inspect(fi.Decl.Body, func(nd ast.Node) bool {
+			if l, ok := nd.(*ast.FuncLit); ok {
+				n++
+				if n == opts.Closure && lit == nil {
+					lit = l
+				}
+			}
+			return true
+		})
+		if lit == nil {
+			res.Status = "unbound"
+			res.Reason = fmt.Sprintf("function literal #%d not found in %s", opts.Closure, key)
+			return res
+		}
+		body = lit.Body
+		closureSig = fi.Pkg.TypesInfo.TypeOf(lit).(*types.Signature)
+		key = fmt.Sprintf("%s_closure%d", key, opts.Closure)
+		if c != nil {
+			key = c.Key
+		}
+		res.Unit = key
+		ex.funcKey = key
+	}
 	defer func() {
 		if r := recover(); r != nil {
 			if u, ok := r.(unsupported); ok {
@@ -149,6 +179,14 @@ func (w *World) VerifyFunc(fi *FuncInfo, c *Contract, opts VerifyOpts) (res *Uni
 			p.vars[r] = Value{ctx.Zero(r.Type()), r.Type()}
 		}
 	}
+	if closureSig != nil {
+		// the closure's own parameters; the enclosing function's parameters are the captured variables
+		for i := 0; i < closureSig.Params().Len(); i++ {
+			bindParam(closureSig.Params().At(i), "")
+		}
+		sig = closureSig
+		ex.curFnSig = closureSig
+	}
 	// trusted global axioms requested by spec files
 	ex.installAxioms(p)
 	// requires
@@ -161,7 +199,7 @@ func (w *World) VerifyFunc(fi *FuncInfo, c *Contract, opts VerifyOpts) (res *Uni
 		ex.addObl(p, key+"#cover.requires", "cover", "precondition is satisfiable", "false", fi.Decl.Pos(), "")
 	}
 	entryHeap := map[string]string{}
-	outs := ex.execBlock(p, fi.Decl.Body.List)
+	outs := ex.execBlock(p, body.List)
 	res.Paths = len(outs)
 	for _, o := range outs {
 		switch o.kind {
